@@ -63,6 +63,13 @@ def rule_models(tier):
            [dict(type='assignment', target=X, rhs=('+', ('*', NUM(2), ID(A)), NUM(3)), freq=0.5),
             dict(type='assignment', target=Y, rhs=('+', ID(A), ('*', NUM(2), ID(B))), freq='repeated')],
            {'p': 1.0}, ['fixed_point'], x0=dict(base_x0, X=1))
+        # a rule that fires once (at the start / at a grid time) declared BEFORE a repeated and a dt rule that read its target: declaration
+        # order decides, whatever the frequencies
+        for tau in ('start', 0.5):
+            mk('dependent_after_sched_%s_%s' % (tau, rx), rx,
+               [dict(type='assignment', target=X, rhs=('+', ('*', NUM(2), ID(A)), NUM(3)), freq=tau),
+                dict(type='assignment', target=Y, rhs=('+', ID(X), ('*', NUM(2), ID(B))), freq='repeated')],
+               {'p': 1.0}, ['fixed_point'], x0=dict(base_x0, X=1, Y=1))
         if rx in delayed_sets:
             continue
         # rules that read the cell volume: a parameter target and a species target (volume reads 1 where no volume is in play)
